@@ -75,19 +75,20 @@ def scan_assumptions(asm, sc):
     return found
 
 
-def run_verus_unit(u, tier, seed, work, log):
+def run_verus_unit(u, tier, seed, work, log, no_fallback=False):
     """returns dict(result=VerusResult, asm=..., sidecar=..., extra=...)"""
     sc = parse_sidecar(os.path.join(u['dir'], 'unit.vx'))
     try:
         asm = assemble(sc)
     except RsxError as e:
-        fallback_witness(u, sc, work, tier, str(e))
+        if not no_fallback:
+            fallback_witness(u, sc, work, tier, str(e))
         raise
     if not asm.selfcheck_ok:
         raise Undecided('%s: assembler self-check failed (assembled text minus insertions != rule-rewritten source tokens)' % u['name'])
     assumptions = scan_assumptions(asm, sc)
     res = VB.run_verus(asm, work, u['name'])
-    if res.status == 'undecided':
+    if res.status == 'undecided' and not no_fallback:
         fallback_witness(u, sc, work, tier, res.reason)
     return {'res': res, 'asm': asm, 'sc': sc, 'assumptions': assumptions}
 
@@ -194,7 +195,7 @@ def main(argv=None):
     tier = args.tier if args.tier in ('quick', 'thorough') else 'quick'
     seed = int(os.environ.get('VERIF_SEED', '0') or 0)
     prop = args.prop
-    units = {n: u for n, u in load_units().items() if prop in u['properties']}
+    units = {n: u for n, u in load_units().items() if prop in u['properties'] or prop in u.get('safety_properties', [])}
     if not units:
         print('no unit serves property %s' % prop)
         return 2
@@ -240,13 +241,16 @@ def _run(prop, units, tier, seed, work, t0):
     for name, u in units.items():
         try:
             if u['backend'] == 'verus':
-                base = run_verus_unit(u, tier, seed, work, None)
+                # a unit may serve a property with its SAFETY obligations only (panic freedom, termination): the functional
+                # clauses of that unit belong to other properties
+                safety_only = prop not in u['properties'] and prop in u.get('safety_properties', [])
+                base = run_verus_unit(u, tier, seed, work, None, no_fallback=safety_only)
                 res, asm = base['res'], base['asm']
                 if res.status == 'undecided':
                     raise Undecided('%s: %s' % (name, res.reason))
                 n_fn = len([f for f in asm.functions if (' fn ' in ' ' + f['item'] or f['item'].startswith('fn ')) and not f.get('mode', '').startswith('signature only')])
                 n_obl = asm.clause_count + n_fn            # clauses + one safety group (bounds/overflow/termination) per function
-                if u.get('fn_properties') is not None:
+                if u.get('fn_properties') is not None and not safety_only:
                     # a multi-property unit: count only the functions this property depends on
                     fnp_, dfl_ = u['fn_properties'], u.get('default_fn_properties') or u['properties']
                     def _rel(item):
@@ -259,7 +263,7 @@ def _run(prop, units, tier, seed, work, t0):
                 # a unit that serves several properties names, per function, the properties that depend on it: a failed
                 # obligation of a function this property does not depend on is not a violation of THIS property
                 fnp, dfl = u.get('fn_properties'), u.get('default_fn_properties')
-                if fnp is not None:
+                if fnp is not None and not safety_only:
                     def _relevant(f):
                         nm = (f.fn or '').split(' :: ')[-1].replace('fn ', '').strip()
                         return prop in fnp.get(nm, dfl or u['properties'])
@@ -267,9 +271,22 @@ def _run(prop, units, tier, seed, work, t0):
                     failed = [f for f in failed if f not in other]
                     if other:
                         extra_info.setdefault(name, {})['failed_obligations_of_functions_this_property_does_not_depend_on'] = [f.obligation for f in other]
+                if safety_only:
+                    def _is_safety(f):
+                        return f.kind == 'safety' or '::debug_assert@' in f.obligation
+                    saf = [f for f in failed if _is_safety(f)]
+                    functional_fns = {f.fn for f in failed if not _is_safety(f) and f.kind not in ('spec-lemma', 'canary')}
+                    amb = [f for f in saf if f.fn in functional_fns]
+                    if amb:
+                        raise Undecided('%s: a safety obligation of %s fails together with functional obligations of the same function (%s): '
+                                        'it cannot be attributed to panic freedom / termination alone' % (name, amb[0].fn, amb[0].obligation))
+                    failed = saf + [f for f in failed if f.kind in ('spec-lemma', 'canary')]
                 mach = [f for f in failed if f.kind in ('spec-lemma', 'canary')]
                 if mach:
                     raise Undecided('%s: a code-independent lemma of the sidecar failed: %s (%s)' % (name, mach[0].obligation, mach[0].message))
+                if safety_only:
+                    n_fn = len([f for f in asm.functions if (' fn ' in ' ' + f['item'] or f['item'].startswith('fn ')) and not f.get('mode', '').startswith('signature only')])
+                    n_obl = n_fn
                 failed_keys = {f.obligation for f in failed}
                 obligations += n_obl
                 discharged += n_obl - len(failed_keys)
@@ -282,7 +299,9 @@ def _run(prop, units, tier, seed, work, t0):
                 functions += [dict(f, unit=name) for f in asm.functions]
                 drops += [dict(d, unit=name) for d in asm.drops]
                 names_ = _obligation_names(asm, name)
-                if u.get('fn_properties') is not None:
+                if safety_only:
+                    names_ = [n for n in names_ if '::safety(' in n]
+                if u.get('fn_properties') is not None and not safety_only:
                     keep = {f['item'].split(' :: ')[-1].replace('fn ', '').strip() for f in rel_fns}
                     names_ = [n for n in names_ if n.split('::')[0] in keep]
                 samples += names_
@@ -293,7 +312,7 @@ def _run(prop, units, tier, seed, work, t0):
                                        'wall_s': round(res.wall_s, 2), 'smt_ms': res.smt_ms, 'rlimit_used': res.rlimit,
                                        'per_function': res.fn_breakdown, 'source_sha256': asm.sources,
                                        'assembler_selfcheck': asm.selfcheck_ok, 'binds': asm.binds})
-                if tier == 'thorough' and res.status == 'verified':
+                if tier == 'thorough' and res.status == 'verified' and not safety_only:
                     extra_info.setdefault(name, {}).update(thorough_verus(u, base, seed, work, None, prop=prop))
             elif u['backend'] in ('kani', 'native'):
                 if u['backend'] == 'kani':
